@@ -22,7 +22,7 @@ if [ "$VERDICT" = "CONFIRMED" ]; then
 fi
 python3 - "$ID" "$NAME" "$OUT" "$VERDICT" "$Q" "$T" "$QV" "$TV" <<'PY'
 import json,sys,subprocess,datetime
-id_,name,out,verdict,q,t,qv,tv=sys.argv[1:9]
+id_,name,out,verdict,q,t,qv,tv=[a.encode('utf-8','surrogateescape').decode('utf-8','replace') for a in sys.argv[1:9]]
 notes=""
 try: notes=open(out+"/NOTES.md").read()
 except Exception: pass
